@@ -19,7 +19,8 @@ MANIFEST = {
  'design_ref': 'DESIGN.md §6 C04',
 }
 THEOREMS = ['C04.cache_transparent', 'C04.getUserId_sound', 'C04.getUserId_unique', 'C04.recognise_secure',
-            'C04.setUser_no_literal_overlap', 'C04.semantic_overlap_accepted', 'C04.inv_step', 'C04.inv_run',
+            'C04.setUser_no_literal_overlap', 'C04.setUser_no_common_instance', 'C04.semantic_overlap_refused',
+            'C04.intersect_complete', 'C04.intersect_sound', 'C04.inv_step', 'C04.inv_run',
             'C04.reachable_step', 'C04.getUserId_agrees', 'C04.revOK_reachable', 'C04.checkCapability_cache_free',
             'C04.glob_iff_matches', 'C04.glob_case', 'C04.patCharMatch_eq_cls',
             # the User plugin: logins are backed by the account's password
@@ -147,13 +148,16 @@ class Impl(object):
             name, h = op[1], op[2]
             if '\n' in name or '\r' in name:
                 return 'err\tvalue'
-            u = U.newUser(); u.name = name
-            if h is not None:
-                try:
+            u = U.newUser()
+            try:
+                u.name = name
+                if h is not None:
                     u.addHostmask(h)
-                except Exception as e:
-                    return self.err(e)
-            return self.unit(U.setUser, u)
+                U.setUser(u)
+                return 'ok'
+            except Exception as e:             # as the plugin does: no half-made account stays behind
+                U.delUser(u.id)
+                return self.err(e)
         if k == 'load':
             u = ircdb.IrcUser(name=op[2], secure=bool(op[3])); u.id = op[1]
             for m in op[4]:
@@ -344,23 +348,19 @@ def gen_overflow(r):
     ops.append(('dump',))
     return ops
 
-FINDING_WITNESS = [('reset', 0), ('register', 'ann', 'ann*!*@*'), ('register', 'bea', '*bea!*@*'), ('dump',), ('lookup', 'annbea!x@y'), ('dump',)]
+FORMER_FINDING = [('reset', 0), ('register', 'ann', 'ann*!*@*'), ('register', 'bea', '*bea!*@*'), ('dump',), ('lookup', 'annbea!x@y'), ('dump',)]
 
 # =====================================================================================
 def semantic_overlap(impl):
-    """the known-finding class: two different users own patterns with a common instance among the
-    vocabulary hostmasks although neither pattern matches the other as a literal string"""
+    """two different accounts own masks with a hostmask in common"""
     us = list(impl.U.users.items())
     for a in range(len(us)):
         for b_ in range(a + 1, len(us)):
             for p in us[a][1].hostmasks:
                 for q in us[b_][1].hostmasks:
                     p, q = str(p), str(q)
-                    if o_glob(p, q) or o_glob(q, p):
-                        continue
-                    for h in HOSTS + ['annbea!x@y']:
-                        if o_glob(p, h) and o_glob(q, h):
-                            return (us[a][0], p, us[b_][0], q, h)
+                    if clean(p) and clean(q) and o_inter(p, q):
+                        return (us[a][0], p, us[b_][0], q)
     return None
 
 def literal_overlap(impl, uid):
@@ -377,6 +377,26 @@ def literal_overlap(impl, uid):
 
 def clean(s):
     return '\n' not in s and '\r' not in s
+
+def o_inter(p, q, memo=None):
+    """do the patterns p and q have a hostmask in common?  (written from the meaning: a common string
+    is built character by character; independent of ircutils)"""
+    memo = {} if memo is None else memo
+    key = (len(p), len(q))
+    if key in memo: return memo[key]
+    memo[key] = False                      # cut cycles of empty moves
+    if not p and not q: r = True
+    else:
+        r = False
+        if p and p[0] == '*': r = r or o_inter(p[1:], q, memo)
+        if q and q[0] == '*': r = r or o_inter(p, q[1:], memo)
+        if not r and p and q and not (p[0] == '*' and q[0] == '*'):
+            a, b = p[0], q[0]
+            compatible = a in '*?' or b in '*?' or o_lower(a) == o_lower(b)
+            if compatible:
+                r = o_inter(p if a == '*' else p[1:], q if b == '*' else q[1:], memo)
+    memo[key] = r
+    return r
 
 def o_is_hostmask(s):
     """nick!user@host with three non-empty blank-free parts (written from the statement, no regexp)"""
@@ -447,23 +467,18 @@ def run_history(impl, ops, kind, oracle=True):
                 lo = literal_overlap(impl, uid)
                 if lo and all(clean(x) for x in (lo[1], lo[3])):
                     fail('op %d: after the accepted %s user %d owns %r and user %d owns %r: one matches the other as a literal string' % ((idx, k) + lo))
-                so = semantic_overlap(impl)
-                if so and finding is None:
-                    finding = 'C04-semantic-overlap'; sowit = so
-                    tags.add('semantic-overlap')
         elif out in ('rolledback', 'exists') or out.startswith('err'):
             tags.add('rejected:' + k)
+        if oracle and k not in ('dump', 'tick', 'reset', 'lookup'):
+            so = semantic_overlap(impl)
+            if so:
+                fail('op %d %r: account %d owns %r and account %d owns %r: some hostmask matches both' % ((idx, op) + so))
         if k == 'tick' and op[1] > 0 and impl.timeout:
             tags.add('tick')
     inp = {'ops': [list(o) for o in ops]}
     if kind == 'replay':
         inp['trace'] = trace
     c = Case(inp, impl='\n'.join(outs), oracle_ok=ok, oracle_msg=msg, tags=sorted(tags), kind=kind)
-    if finding and ok:
-        # the history is inside the known-finding class: two accounts own overlapping masks
-        c.oracle_ok = False
-        c.oracle_msg = 'two accounts own masks with a common instance: user %d %r and user %d %r both match %r' % sowit
-        c.finding = finding
     return c, lines
 
 
@@ -652,11 +667,11 @@ def run_phistory(impl, r, n, kind, fixed=None):
     return Case(inp, impl='\n'.join(outs), oracle_ok=ok, oracle_msg=msg, tags=sorted(tags), kind=kind), lines
 
 # ---- glob stream ------------------------------------------------------------------------
-GA = ['*', '?', '*', 'a', 'B', 'c', '!', '@', '.', '[', ']', '{', '}', '\\', '|', '^', '~', '-', '_', '0', 'é', '中', ' ', '\n', '(', ')', '+', '$']
+GA = ['*', '?', '*', 'a', 'B', 'c', 'k', 'K', 's', 'i', 'I', '!', '@', '.', '[', ']', '{', '}', '\\', '|', '^', '~', '-', '_', '0', 'é', 'É', '\u212a', '\u017f', '\u0130', '\u0131', '中', ' ', '\n', '(', ')', '+', '$']
 def gen_glob_pair(r):
     k = r.randint(0, 5)
     if k == 0:
-        return r.choice(PATS), r.choice(HOSTS)
+        return r.choice(PATS), r.choice(HOSTS + PATS)
     if k == 1:
         h = r.choice(HOSTS)
         # derive a pattern from the hostmask
@@ -679,7 +694,7 @@ def glob_case(impl, p, h):
     ok = True; msg = ''
     if got != again:
         ok = False; msg = 'hostmaskPatternEqual(%r, %r) answers %s then %s' % (p, h, got, again)
-    if clean(p) and clean(h) and all(ord(c) < 128 for c in p + h):
+    if clean(p) and clean(h):
         want = o_glob(p, h)
         if got != want:
             ok = False; msg = 'hostmaskPatternEqual(%r, %r) = %s; IRC glob semantics (* any run, ? one character, rfc1459 case pairs, anchored) give %s' % (p, h, got, want)
@@ -690,8 +705,19 @@ def glob_case(impl, p, h):
     if '*' in p: tags.append('star')
     if '?' in p: tags.append('qmark')
     if any(c in p for c in '[]{}\\|^~'): tags.append('pairs')
-    c = Case({'op': 'glob', 'p': p, 'h': h}, impl='%d\n%d' % (got, ishm), oracle_ok=ok, oracle_msg=msg, tags=tags, kind='glob')
-    return c, ['glob\t%s\t%s' % (wire.enc(p), wire.enc(h)), 'isUserHostmask\t' + wire.enc(h)]
+    # the overlap test, on the pair (p, h') where h' is h read as a second pattern
+    q = h
+    inter = bool(iu.hostmaskPatternsIntersect(p, q))
+    if clean(p) and clean(q):
+        want = o_inter(p, q)
+        if inter != want:
+            ok = False; msg = 'hostmaskPatternsIntersect(%r, %r) = %s; the patterns %s a hostmask in common' % (p, q, inter, 'have' if want else 'do not have')
+        if got and not inter and '*' not in q and '?' not in q:
+            ok = False; msg = 'hostmaskPatternsIntersect(%r, %r) is False although the first matches the second' % (p, q)
+    if inter: tags.append('intersect')
+    c = Case({'op': 'glob', 'p': p, 'h': h}, impl='%d\n%d\n%d' % (got, ishm, inter), oracle_ok=ok, oracle_msg=msg, tags=tags, kind='glob')
+    return c, ['glob\t%s\t%s' % (wire.enc(p), wire.enc(h)), 'isUserHostmask\t' + wire.enc(h),
+               'intersect\t%s\t%s' % (wire.enc(p), wire.enc(q))]
 
 def valid_unicode(s):
     try:
@@ -707,7 +733,7 @@ def explore(ctx, n_hist, n_hostile, n_over, n_glob, corpus=(), stream='c04', n_p
     def add(c, ls):
         spans.append((c, len(lines), len(ls))); lines.extend(ls); cases.append(c)
     wit = None
-    for ops in [FINDING_WITNESS] + list(corpus):
+    for ops in [FORMER_FINDING] + list(corpus):
         c, ls = run_history(impl, [tuple(o) for o in ops], 'corpus'); add(c, ls)
         if wit is None: wit = c
     for _ in range(n_hist):
@@ -738,13 +764,6 @@ def load_corpus():
     except OSError:
         return []
 
-def finding_status(wit):
-    """replay of the KNOWN_FINDINGS witness: both overlapping masks are accepted and a sender matching both is refused"""
-    outs = wit.impl.split('\n') if wit is not None else []
-    still = len(outs) >= 5 and outs[1] == 'ok' and outs[2] == 'ok' and 'err\tvalue' in outs
-    return {'C04-semantic-overlap': (still, "register ann 'ann*!*@*' and register bea '*bea!*@*' are both accepted; 'annbea!x@y' then matches both: "
-                                            "getUserId raises DuplicateHostmask and deletes both masks")}
-
 def run(ctx):
     build = leanbuild.ensure(PROPERTY, THEOREMS, thorough=ctx.thorough, extractors=['IrcDbUsers', 'IrcDbCaps'])
     if ctx.thorough:
@@ -761,7 +780,7 @@ def run(ctx):
             os.environ['VERIF_SEED'] = str(ctx.seed)
         return [c for c in more if c.oracle_ok is False and c.finding is None]
     return verdict.conclude(PROPERTY, ctx.tier, ctx.seed, build, cases, search=search, rule=RULE,
-                            finding_status=finding_status(wit), trusted_base=TRUSTED,
+                            trusted_base=TRUSTED,
                             assumptions=['Python asserts enabled', 'the clock does not run backwards', 'timeoutIdentification fixed within a history',
                                          'generated names and hostmasks are ASCII plus caseless non-ASCII characters (re.I / str.lower outside ASCII not modelled)'],
                             t0=ctx.t0)
